@@ -22,7 +22,10 @@ def src_file(sp):
     return sp.split(":")[0]
 
 
-def sites(facts, crates, skip_def=lambda d: False):
+def sites(facts, crates, skip_def=lambda d: False, discharged=None):
+    """`discharged`: {(def, span, msg)} of assertion sites proved unfailing by the interval analysis (ranges.py); they are
+    not inventory matter"""
+    discharged = discharged or {}
     out = []  # (file, kind, what, fn, sp)
     for c in crates:
         for j in facts.mir(c):
@@ -50,6 +53,6 @@ def sites(facts, crates, skip_def=lambda d: False):
                 elif t["k"] == "Assert":
                     m = t["msg"]
                     kind = ASSERTS.get(m) or ("overflow" if m.startswith("Overflow(") else None)
-                    if kind:
+                    if kind and (j["def"], t["sp"], m) not in discharged:
                         out.append((src_file(t["sp"]), kind, m, j["def"], t["sp"]))
     return out
